@@ -24,7 +24,7 @@ from mc.faults import MemStore, LogicalClock, gunzip_all_members
 
 ID = 'C19'
 RULE = ('all words over P paths up to length n x maxHandles x pruneEvery x fault plan (none; EMFILE (also ENFILE) when >=k descriptors open, '
-        'k=1..3; every set of <=2 failing open() calls; one permanently failing path; the same with stale files of an earlier run at '
+        'k=1..3; four non-canonical spellings of the paths (relative, ./, //, ..) alone, with k=1 and with both histories; every set of <=2 failing open() calls; one permanently failing path; the same with stale files of an earlier run at '
         'the paths and after an earlier writer object of the same process; forceAppend with and without such files; an explicit close() of the writer before any write of the sequence); both methods (gzip / plain); '
         'non-trivial = an injected failure was hit while >=1 other descriptor was open; states = distinct executions. '
         'FastqHandle: words over 3 cells + a record without cell index x paired/single end x maxHandles x fault plan. '
@@ -99,6 +99,15 @@ def shards(tier):
     return grouped
 
 
+SPELLINGS = {None: '/mem/cell{p}.fq.gz', 'relative': 'mem/cell{p}.fq.gz', 'dot': './mem/cell{p}.fq.gz',
+             'doubled-separator': '/mem//cell{p}.fq.gz', 'dotdot': '/mem/x/../cell{p}.fq.gz'}
+
+
+def cell_path(p, plan):
+    """the path of cell p as the caller spells it (the limiter is given the same spelling at every write)"""
+    return SPELLINGS[plan.get('spelling')].format(p=p)
+
+
 def execute(word, maxHandles, pruneEvery, plan, method=1):
     """Run one write sequence on the real HandleLimiter over a MemStore with the fault plan.
     Returns (violations, info)."""
@@ -112,7 +121,7 @@ def execute(word, maxHandles, pruneEvery, plan, method=1):
         import gzip as _gz
         for p_ in sorted(set(word)):
             junk = b'@stale\nNNNN\n+\n!!!!\n'
-            store.files[f'/mem/cell{p_}.fq.gz'] = bytearray(_gz.compress(junk) if method == 1 else junk)
+            store.files[store.key(cell_path(p_, plan))] = bytearray(_gz.compress(junk) if method == 1 else junk)
 
     class _G:
         open = staticmethod(store.gzip_open)
@@ -132,14 +141,14 @@ def execute(word, maxHandles, pruneEvery, plan, method=1):
             saved_plan, store.plan = store.plan, {}
             first = hl.HandleLimiter(maxHandles=maxHandles, pruneEvery=pruneEvery, compressionLevel=1)
             for i, p in enumerate(word):
-                first.write(f'/mem/cell{p}.fq.gz', f'@old{i}\nTTTT\n+\n####\n', method=method)
+                first.write(cell_path(p, plan), f'@old{i}\nTTTT\n+\n####\n', method=method)
             first.close()
             store.plan = saved_plan
             store.open_calls = 0
             store.failures = []
         lim = hl.HandleLimiter(maxHandles=maxHandles, pruneEvery=pruneEvery, compressionLevel=1)
         for i, p in enumerate(word):
-            path = f'/mem/cell{p}.fq.gz'
+            path = cell_path(p, plan)
             payload = f'@r{i}:{p}\nACGT{i}\n+\nIIII{i}\n'
             if plan.get('close_at') == i:
                 # history step: the caller closes the writer (all files flushed and complete) and goes on writing
@@ -178,7 +187,7 @@ def execute(word, maxHandles, pruneEvery, plan, method=1):
         want = ''.join(payloads).encode()
         if plan.get('force_append') and plan.get('stale'):
             want = b'@stale\nNNNN\n+\n!!!!\n' + want      # forceAppend: the writer continues the file which is there
-        if path not in store.files:
+        if store.key(path) not in store.files:
             viol.append(('content:file-missing-for-acknowledged-records', {'path': path}))
             continue
         data = store.content(path)
@@ -222,6 +231,11 @@ def plans_for(word, maxHandles, pruneEvery, method, acc_cb):
     for extra in ({'force_append': True}, {'force_append': True, 'stale': True}):
         for base in ({}, {'emfile_k': 1}, {'emfile_k': 2}):
             plan = dict(base, **extra)
+            acc_cb(plan, *execute(word, maxHandles, pruneEvery, plan, method))
+    # the caller's spelling of the paths (relative, './', a doubled separator, '..'): the same file at every write
+    for sp in [k for k in SPELLINGS if k]:
+        for base in ({}, {'emfile_k': 1}, {'stale': True}, {'earlier_writer': True}):
+            plan = dict(base, spelling=sp)
             acc_cb(plan, *execute(word, maxHandles, pruneEvery, plan, method))
     # history: an explicit close() of the same writer before the i-th write, then writing goes on (files are continued)
     for i in range(1, len(word)):
